@@ -67,6 +67,8 @@ mk_slice = _op("mk_slice", 3)
 list_cmp = {n: F("list_" + n, Val, Val, BoolS) for n in ("lt", "le", "gt", "ge")}
 plain = OP("plain", 1)                   # plain view of an ARGUMENT value (identity on JSON data; tuples -> lists)
 put_in = OP("put_in", 3)                 # [L-COMP] replace the sub-value at the position of an attached node
+# Inv.node (shape): a node's container holds only scalars and references to nodes (no raw nested containers)
+node_items_ok = F("node_items_ok", Val, BoolS)
 sub_of = OP("sub_of", 2)                 # [L-COMP] select the sub-value at the position of an attached node
 
 KE, IE, VE, TE = "KeyError", "IndexError", "ValueError", "TypeError"
@@ -874,6 +876,10 @@ class Intrinsics:
             return newv
         # a freshly built container value: a new container object
         eng.note("[N-VIEW]")
+        if isinstance(val, Z):
+            # Inv.node (shape) at the store site: checked wherever callee preconditions are checked
+            ok = z3.BoolVal(True) if val.meta.get("fb_src") is not None else node_items_ok(val.term)
+            st.event("requires", "node._data", "Inv.node:container-holds-only-scalars-and-nodes", ok)
         d = smt.fresh("newcell", IntS)
         st.assume(d >= st.g["Alloc"])
         st.g["Alloc"] = d + 1
